@@ -59,7 +59,7 @@ def _case(draw):
         vals = st.sampled_from(["a", "uni0061", "A", "x y", "", "f_i", "Z#", "uniFFFF", "b", "one", "two", "ab", "ab.1", "a.1", "Q" * 70 + "-x"])
         spec["lib"]["public.postscriptNames"] = {n: draw(vals) for n in perm if draw(st.booleans())}
     case = {"spec": spec, "module": draw(st.sampled_from(["ufoLib2", "defcon"])), "flavour": draw(st.sampled_from(["ttf", "cff", "cff2"]))}
-    sw = draw(st.sampled_from(["arg", "arg", "lib-useProductionNames", "lib-keepGlyphNames", "glyphs-legacy"]))
+    sw = draw(st.sampled_from(["arg", "arg", "lib-useProductionNames", "lib-keepGlyphNames", "glyphs-legacy", "lib-keepGlyphNames-false"]))
     case["switch"] = sw
     return case
 
@@ -124,6 +124,10 @@ def compile_pair(case):
             sp["lib"]["com.github.googlei18n.ufo2ft.useProductionNames"] = on
         elif sw == "lib-keepGlyphNames":
             sp["lib"]["com.github.googlei18n.ufo2ft.keepGlyphNames"] = True
+            ckw["useProductionNames"] = on
+        elif sw == "lib-keepGlyphNames-false":
+            # the lib asks to drop glyph names, the explicit argument overrides the lib altogether
+            sp["lib"]["com.github.googlei18n.ufo2ft.keepGlyphNames"] = False
             ckw["useProductionNames"] = on
         elif sw == "glyphs-legacy":
             sp["lib"]["com.schriftgestaltung.Don't use Production Names"] = not on
